@@ -73,6 +73,23 @@ def dominating_guards(stmt, func_body):
             if n is p.kids[-1]:
                 out.append((p.kids[0], True, 'loop'))
         n = p
+    return atomise(out)
+
+
+def atomise(conds):
+    """`a || b` failing means both fail; `a && b` holding means both hold; `!a` holding means a fails."""
+    out = []
+    stack = list(conds)
+    while stack:
+        c, pol, kind = stack.pop(0)
+        n = c.strip()
+        b = n.bin if n.kind in ('BinaryOperator', 'CXXOperatorCallExpr') else None
+        if b is not None and ((b[0] == '||' and pol is False) or (b[0] == '&&' and pol is True)):
+            stack = [(b[1], pol, kind), (b[2], pol, kind)] + stack
+        elif n.kind == 'UnaryOperator' and n.opcode == '!' and n.kids:
+            stack = [(n.kids[0], not pol, kind)] + stack
+        else:
+            out.append((c, pol, kind))
     return out
 
 
